@@ -1,5 +1,6 @@
 SPECIFICATION Spec
 CONSTANT Lattices <- LatsQuick
+CONSTANT StaleResampleFlag = FALSE
 INVARIANT WeightsSumToOne
 INVARIANT UnitSecondMoment
 INVARIANT TuningAdmissible
@@ -8,6 +9,8 @@ INVARIANT PSD
 INVARIANT PosteriorIsPriorMinusKSKt
 INVARIANT PosteriorLePrior
 INVARIANT NoObsReturnsPropagatedMean
+INVARIANT ForecastUsesFreshSigmaPoints
+PROPERTY ForecastKeepsEstimate
 INVARIANT GainSolvesNormalEquations
 INVARIANT RedrawIsTextbookKalman
 INVARIANT NoRedrawIsVariant
